@@ -492,6 +492,188 @@ static void chain(void) {
   }
 }
 
+
+/* ---- collections inside element callbacks ------------------------------------------------------------------------
+** mode=callbacks: a rooted container whose elements (or keys, or values) are of a type with its own constructor, assignment
+** and destructor, each element holding the ONLY reference to a managed leaf object.  One container operation is run with a
+** forced collection inside the k-th element callback it makes - for every operation of the kind, every position, every k -
+** so the collection sees the container in each of its intermediate states.  Afterwards every leaf referenced by an element
+** the reference model says is still contained must be registered and intact. */
+
+struct Trig { var leaf; int64_t id; uint64_t live; };
+extern var Trig;
+static int cb_count, cb_fire_at;   /* callbacks seen in this operation; collect inside the cb_fire_at-th (0 = never) */
+static int cb_kinds;               /* bit 1 assign, bit 2 destruct, bit 4 construct: which callbacks count */
+static void cb_point(int kindbit) {
+  if (!(cb_kinds & kindbit) || !gc) return;
+  cb_count++;
+  if (cb_count == cb_fire_at) { GC_Mark(gc); GC_Sweep(gc); }
+}
+static void Trig_New(var self, var args) {
+  struct Trig* t = self; t->live = CANARY;
+  if (len(args) >= 2) { t->leaf = get(args, $I(0)); t->id = c_int(get(args, $I(1))); } else { t->leaf = NULL; t->id = -1; }
+  cb_point(4);
+}
+static void Trig_Del(var self) { struct Trig* t = self; cb_point(2); t->live = 0; t->leaf = NULL; }
+static void Trig_Assign(var self, var obj) {
+  struct Trig* t = self; struct Trig* o = obj;
+  t->leaf = o->leaf; t->id = o->id; t->live = CANARY;
+  cb_point(1);
+}
+static int Trig_Cmp(var self, var obj) { int64_t a = ((struct Trig*)self)->id, b = ((struct Trig*)obj)->id; return a < b ? -1 : a > b; }
+static uint64_t Trig_Hash(var self) { return (uint64_t)((struct Trig*)self)->id * 55u; }
+var Trig = Cello(Trig, Instance(New, Trig_New, Trig_Del), Instance(Assign, Trig_Assign), Instance(Cmp, Trig_Cmp), Instance(Hash, Trig_Hash));
+
+#define CB_MAXE 12
+static var LEAF[CB_MAXE];          /* static storage: not scanned */
+enum { CK_ARRAY, CK_LIST, CK_TABLE_V, CK_TREE_V, CK_TABLE_K, CK_TREE_K, CK_N };
+static const char* CKNAME[] = { "Array<elem>", "List<elem>", "Table<Int,elem>", "Tree<Int,elem>", "Table<elem,Int>", "Tree<elem,Int>" };
+enum { CO_POP, CO_POP_AT, CO_REM, CO_PUSH, CO_PUSH_AT, CO_SET, CO_RESIZE, CO_CONCAT, CO_ASSIGN_FROM, CO_COPY, CO_N };
+static const char* CONAME[] = { "pop", "pop_at", "rem", "push", "push_at", "set", "resize", "concat", "assign-from-other", "copy" };
+
+static var __attribute__((noinline)) cb_leaf(int id) { return new(Int, $I(1000 + id)); }
+static var cb_new_container(int ck) {
+  switch (ck) {
+  case CK_ARRAY: return new(Array, Trig); case CK_LIST: return new(List, Trig);
+  case CK_TABLE_V: return new(Table, Int, Trig); case CK_TREE_V: return new(Tree, Int, Trig);
+  case CK_TABLE_K: return new(Table, Trig, Int); default: return new(Tree, Trig, Int);
+  }
+}
+static void __attribute__((noinline)) cb_insert(var c, int ck, int id) {
+  /* the leaf is made here and referenced from this frame only until the element holds it */
+  var lf = cb_leaf(id); LEAF[id] = lf;
+  switch (ck) {
+  case CK_ARRAY: case CK_LIST: push(c, $(Trig, lf, id, CANARY)); break;
+  case CK_TABLE_V: case CK_TREE_V: set(c, $I(id * 55), $(Trig, lf, id, CANARY)); break;
+  default: set(c, $(Trig, lf, id, CANARY), $I(id)); break;
+  }
+}
+static int cb_is_seq(int ck) { return ck == CK_ARRAY || ck == CK_LIST; }
+
+/* model: ids contained, in order for sequences */
+static int cb_model[CB_MAXE], cb_key[CB_MAXE], cb_mn;   /* element id and (maps with Int keys) the key it is bound to */
+static void cb_model_rem(int pos) { for (int i = pos; i + 1 < cb_mn; i++) { cb_model[i] = cb_model[i + 1]; cb_key[i] = cb_key[i + 1]; } cb_mn--; }
+static void cb_model_ins(int pos, int id) { for (int i = cb_mn; i > pos; i--) { cb_model[i] = cb_model[i - 1]; cb_key[i] = cb_key[i - 1]; } cb_model[pos] = id; cb_key[pos] = id; cb_mn++; }
+
+/* run operation `op` with argument `arg` on container c (n elements, ids 0..n-1); returns 0 if not applicable */
+static int __attribute__((noinline)) cb_apply(var c, int ck, int op, int arg, int n, volatile var* other_out) {
+  int seq = cb_is_seq(ck);
+  int fresh = n;     /* id of a new element */
+  switch (op) {
+  case CO_POP: if (!seq || n == 0) return 0; pop(c); cb_model_rem(cb_mn - 1); return 1;
+  case CO_POP_AT: if (!seq || arg >= n) return 0; pop_at(c, $I(arg)); cb_model_rem(arg); return 1;
+  case CO_REM:
+    if (arg >= n) return 0;
+    if (seq) rem(c, $(Trig, NULL, arg, CANARY));
+    else if (ck == CK_TABLE_V || ck == CK_TREE_V) rem(c, $I(arg * 55));
+    else rem(c, $(Trig, NULL, arg, CANARY));
+    for (int i = 0; i < cb_mn; i++) if (cb_model[i] == arg) { cb_model_rem(i); break; }
+    return 1;
+  case CO_PUSH: if (arg != 0) return 0; cb_insert(c, ck, fresh); cb_key[cb_mn] = fresh; cb_model[cb_mn++] = fresh; return 1;
+  case CO_PUSH_AT: {
+    if (!seq || arg > n) return 0;
+    var lf = cb_leaf(fresh); LEAF[fresh] = lf;
+    push_at(c, $(Trig, lf, fresh, CANARY), $I(arg)); cb_model_ins(arg, fresh); return 1; }
+  case CO_SET: {
+    if (arg >= n) return 0;
+    var lf = cb_leaf(fresh); LEAF[fresh] = lf;
+    if (seq) { set(c, $I(arg), $(Trig, lf, fresh, CANARY)); cb_model[arg] = fresh; }
+    else if (ck == CK_TABLE_V || ck == CK_TREE_V) { set(c, $I(arg * 55), $(Trig, lf, fresh, CANARY)); for (int i = 0; i < cb_mn; i++) if (cb_model[i] == arg) cb_model[i] = fresh; }
+    else { set(c, $(Trig, LEAF[arg], arg, CANARY), $I(77)); }   /* existing key (an equal key object holding the same leaf): value replaced */
+    return 1; }
+  case CO_RESIZE:
+    if (ck == CK_TREE_V || ck == CK_TREE_K) { if (arg != 0) return 0; resize(c, 0); cb_mn = 0; return 1; }
+    if (!seq) { if (arg != 0 && arg != n) return 0; resize(c, (size_t)arg); if (arg == 0) cb_mn = 0; return 1; }
+    if (arg > n) return 0;           /* growing constructs blank elements: no leaves involved */
+    resize(c, (size_t)arg); cb_mn = arg; return 1;
+  case CO_CONCAT: case CO_ASSIGN_FROM: {
+    if (arg != 0) return 0;
+    if (op == CO_CONCAT && !seq) return 0;
+    volatile var o = cb_new_container(ck);
+    *other_out = o;
+    cb_insert((var)o, ck, fresh); cb_insert((var)o, ck, fresh + 1);
+    if (op == CO_CONCAT) concat(c, (var)o); else { assign(c, (var)o); cb_mn = 0; }
+    cb_key[cb_mn] = fresh; cb_model[cb_mn++] = fresh; cb_key[cb_mn] = fresh + 1; cb_model[cb_mn++] = fresh + 1;
+    return 1; }
+  case CO_COPY: {
+    if (arg != 0) return 0;
+    *other_out = copy(c);            /* the copy holds the same leaves through its own elements */
+    return 1; }
+  }
+  return 0;
+}
+
+static const char* cb_verify(var c, int ck, const int* ids, const int* keys, int n) {
+  if (len(c) != (size_t)n) return "length-differs-from-reference";
+  for (int i = 0; i < n; i++) {
+    int id = ids[i];
+    struct Trig* t;
+    if (cb_is_seq(ck)) t = get(c, $I(i));
+    else if (ck == CK_TABLE_V || ck == CK_TREE_V) t = get(c, $I(keys[i] * 55));
+    else { t = NULL; foreach (k in c) { if (((struct Trig*)k)->id == id) t = k; } if (!t) return "key-missing"; }
+    if (t->id != id) return "element-differs-from-reference";
+    if (t->live != CANARY) return "element-finalised-while-contained";
+    if (t->id < 0 || t->id >= CB_MAXE) return "element-corrupted";
+    var lf = LEAF[t->id];
+    if (t->leaf != lf) return "element-holds-another-leaf";
+    if (!mem(gc, lf)) return "leaf-reclaimed";
+    if (type_of(lf) != Int || c_int(lf) != 1000 + t->id) return "leaf-damaged";
+  }
+  return NULL;
+}
+
+static void callbacks_mode(void) {
+  vf.phase = "c01-callbacks";
+  int maxn = (int)vf_param_i("maxn", 4);
+  cb_kinds = (int)vf_param_i("cbkinds", 7);
+  for (int ck = 0; ck < CK_N; ck++) for (int n = 0; n <= maxn; n++) for (int op = 0; op < CO_N; op++) for (int arg = 0; arg <= n + 1; arg++) {
+    /* dry run counts the callbacks of the operation; then one execution per callback with the collection inside it */
+    int ncb = 0;
+    for (int k = 0; k <= ncb; k++) {
+      vf_watchdog(60);
+      vf_set_cur("callbacks kind=%d n=%d op=%d arg=%d k=%d | %s holding %d elements, %s(%d), forced collection inside element callback #%d%s", ck, n, op, arg, k, CKNAME[ck], n, CONAME[op], arg, k, k ? "" : " (none: counting run)");
+      gc = new_raw(GC, $R(stack_bottom));
+      volatile var root = cb_new_container(ck);
+      volatile var other = NULL;
+      cb_fire_at = 0;
+      for (int i = 0; i < n; i++) cb_insert((var)root, ck, i);
+      cb_mn = 0; for (int i = 0; i < n; i++) { cb_key[cb_mn] = i; cb_model[cb_mn++] = i; }
+      if (ck == CK_TREE_V || ck == CK_TREE_K || ck == CK_TABLE_V || ck == CK_TABLE_K) { /* maps: the model is a set; verify looks elements up by key */ }
+      scrub_stack();
+      cb_count = 0; cb_fire_at = k;
+      volatile int applicable = 0;
+      var e = VF_CATCH(applicable = cb_apply((var)root, ck, op, arg, n, &other));
+      cb_fire_at = 0;
+      /* not offered for this kind/size, or refused by the kind's own conventions (push_at at len on a List ...) in the counting run */
+      if ((!applicable && !e) || (e && k == 0)) { root = NULL; other = NULL; var e0 = VF_CATCH(del_raw(gc)); (void)e0; gc = NULL; break; }
+      if (k == 0) ncb = cb_count;
+      vf.executions++; vf.transitions++;
+      if (k > 0) vf.nontrivial++;
+      const char* why = NULL;
+      if (e) why = "operation-raises";
+      else {
+        scrub_stack();
+        GC_Mark(gc); GC_Sweep(gc);      /* and one more collection once the operation is complete */
+        /* for maps whose value was re-set the model id changed: handled in cb_apply */
+        volatile const char* w = NULL;
+        var e2 = VF_CATCH(w = cb_verify((var)root, ck, cb_model, cb_key, cb_mn));
+        why = e2 ? "reading-back-raises" : (const char*)w;
+        if (!why && other && (op == CO_COPY)) { int ids[CB_MAXE]; for (int i = 0; i < n; i++) ids[i] = i; e2 = VF_CATCH(w = cb_verify((var)other, ck, ids, ids, n)); why = e2 ? "reading-back-raises" : (const char*)w; if (why) { static char b2[64]; snprintf(b2, sizeof b2, "copy/%s", why); why = b2; } }
+        if (!why && other && (op == CO_CONCAT || op == CO_ASSIGN_FROM)) { int ids[2] = { n, n + 1 }; e2 = VF_CATCH(w = cb_verify((var)other, ck, ids, ids, 2)); why = e2 ? "reading-back-raises" : (const char*)w; if (why) { static char b3[64]; snprintf(b3, sizeof b3, "source/%s", why); why = b3; } }
+      }
+      vf.evaluations++;
+      if (why) {
+        snprintf(labelbuf, sizeof labelbuf, "callbacks/%s/%s/%s/%s", CKNAME[ck], CONAME[op], k ? "collection-inside-callback" : "collection-after-operation", why);
+        vf_violation(labelbuf, NULL, "%s of %d elements, %s(%d), collection inside element callback #%d of %d: %s", CKNAME[ck], n, CONAME[op], arg, k, ncb, why);
+      }
+      if (vf_want_sample()) vf_sample("%s", vf_cur);
+      root = NULL; other = NULL;
+      var e3 = VF_CATCH(del_raw(gc)); (void)e3; gc = NULL;
+      vf.states++;
+    }
+  }
+}
+
 int main(int argc, char** argv) {
   vf_init(argc, argv);
   var bottom_marker = NULL;
@@ -500,6 +682,7 @@ int main(int argc, char** argv) {
 
   const char* mode = vf_param("mode", "shapes");
   if (strcmp(mode, "ladder") == 0) { ladder(); }
+  else if (strcmp(mode, "callbacks") == 0) { callbacks_mode(); }
   else if (strcmp(mode, "chain") == 0) {
     if (vf.replay) { long k, l; if (sscanf(vf.replay, "chain kind=%ld len=%ld", &k, &l) == 2) { /* run just that one */
         struct chain_arg a = { (int)k, l }; struct vf_child r = vf_fork_run(chain_child, &a, 300);
